@@ -33,6 +33,9 @@ import c25_util as U  # noqa: E402
 WITNESSES = [
     ('viral', 'define viral propagation vp1 (variable VAt_1) is when "C" and "N" then "X"; else "F" end viral propagation;\nDS_r := DS_1 + DS_2;'),
     ('float-literal', 'DS_r := DS_1 + 1.0;'),
+    ('float-digits', 'DS_r := DS_1 * 0.123456789;'),
+    ('float-exponent-crash', 'DS_r := DS_1 * 0.0000001;'),
+    ('float-g-format', 'DS_r := DS_1 * 1234567.5;'),
     ('quoted-result', "'DS r' := DS_1 + 1;"),
     ('reserved-result', "'errorlevel' := DS_1 + 1;"),
     ('rename-reserved', "DS_r := DS_1[rename 'errorlevel' to level];"),
@@ -125,12 +128,14 @@ def classify(rec, lean, case, V, reserved):
         return 'unknown-kind'
     # ---- generate_sdmx raised on a script that parses
     if 'generate_error' in rec:
-        cls, _, msg = rec['generate_error']
-        if cls == 'AttributeError' and "'Scalar' object has no attribute '__name__'" in msg:
+        cls, _, msg, where = (rec['generate_error'] + [None])[:4]
+        if cls == 'AttributeError' and where == 'ASTString.visit_Argument' and "'Scalar' object" in msg:
             key = 'ASTString.visit_Argument:operator parameter of type scalar raises AttributeError'
+        elif cls == 'IndexError' and where == 'ASTString._handle_literal':
+            key = "ASTString._handle_literal:raises IndexError on a Number literal whose str() has no '.' (exponent notation)"
         else:
-            key = 'generate_sdmx:raises %s on a script create_ast accepts (%s)' % (cls, msg[:50])
-        V.violation(key, rp, 'generate_sdmx raises %s: %s' % (cls, msg[:120]))
+            key = 'generate_sdmx:raises %s in %s on a script create_ast accepts' % (cls, where)
+        V.violation(key, rp, 'generate_sdmx raises %s in %s: %s' % (cls, where, msg[:120]))
         return 'generate-error'
     # ---- (a) model vs code
     if lean is None:
@@ -194,6 +199,10 @@ def classify(rec, lean, case, V, reserved):
             cls = df.get('cls') or '?'
             if cls == 'Constant.type_' and 'FLOAT_CONSTANT' in df['path'] and 'INTEGER_CONSTANT' in df['path']:
                 key = 'ASTString._handle_literal:Number literal with integral value is rendered as an Integer literal'
+            elif re.search(r'\d(\.\d+)?e[+-]\d\d', df.get('text', '')):
+                key = 'ASTString._handle_literal:Number literal is rendered in exponent notation (format g), which VTL does not read back'
+            elif cls == 'Constant.value' and re.search(r'Constant:value: -?\d+\.\d+ vs -?\d+\.\d+', df['path']):
+                key = 'ASTString._handle_literal:Number literal is rendered with 6 fractional digits only'
             elif cls in ('JoinOp.isLast', 'RegularAggregation.isLast'):
                 key = 'ASTString.visit_RegularAggregation:aggr clause of a join body is rendered after the join'
             elif cls == 'Dataset.components':
@@ -243,6 +252,7 @@ def classify(rec, lean, case, V, reserved):
 def main(ck):
     t0 = time.time()
     pr = ck.proof('C25')
+    phases = {'proof': round(time.time() - t0, 1)}
     reserved = reserved_words()
     import eng
     repo = eng.REPO
@@ -260,12 +270,16 @@ def main(ck):
     else:
         for name, text in WITNESSES:
             cases.append({'origin': 'witness:' + name, 'text': text, 'gen': None})
-        n_gen, n_viral = (160, 30) if quick else (1600, 250)
+        n_gen, n_viral = (140, 30) if quick else (1500, 250)
+        if os.environ.get('C25_WITNESSES_ONLY'):      # development aid
+            n_gen = n_viral = 0
         for i in range(n_gen + n_viral):
             g = U.gen_script(rng, reserved, viral=i >= n_gen)
             cases.append({'origin': 'generated' + (':viral' if i >= n_gen else ''), 'text': g['text'], 'gen': g})
         files = U.corpus_files(repo)
         pick = files if not quick else rng.sample(files, min(300, len(files)))
+        if os.environ.get('C25_WITNESSES_ONLY'):
+            pick = []
         for f in sorted(pick):
             try:
                 cases.append({'origin': 'corpus:' + os.path.relpath(f, repo), 'text': open(f, encoding='utf-8-sig', errors='replace').read(),
@@ -283,6 +297,7 @@ def main(ck):
         for i, r in zip(late, again):
             recs[i] = r
 
+    phases['analyze'] = round(time.time() - t0, 1)
     # ------------------------------------------------------------------ Lean side
     reqs, req_of = [], {}
     for i, rec in enumerate(recs):
@@ -301,6 +316,7 @@ def main(ck):
     if answers[-1] != 'items=T1:44535f72:e1:0;rulesets=;udos=;script=a:0:44535f72:e1;hoisted=1;noviral=0':
         V.disagree.append(('K:driver self-test', 'driver answer for the viral witness changed: %s' % answers[-1], None))
 
+    phases['driver'] = round(time.time() - t0, 1)
     # ------------------------------------------------------------------ classify
     hist_kind, hist_stage, hist_origin = collections.Counter(), collections.Counter(), collections.Counter()
     n_stmt = 0
@@ -354,7 +370,7 @@ def main(ck):
     run_jobs = []
     gen_ok = [i for i, c in enumerate(cases) if c['gen'] is not None and recs[i].get('stage') == 'done']
     wit = [i for i, c in enumerate(cases) if c['origin'].startswith('witness:')]
-    n_run_gen, n_run_corpus = (45, 50) if quick else (400, 500)
+    n_run_gen, n_run_corpus = (40, 50) if quick else (400, 500)
     for i in rng.sample(gen_ok, min(n_run_gen, len(gen_ok))):
         g = cases[i]['gen']
         run_jobs.append({'id': i, 'text': cases[i]['text'], 'structures': g['structures'], 'datapoints': g['datapoints'], 'budget': 90})
@@ -390,8 +406,17 @@ def main(ck):
             run_jobs = [dict({'id': 0, 'text': cases[0]['text'], 'budget': 120}, **r['inputs'])]
         else:
             run_jobs = []
+    for n, j in enumerate(run_jobs):
+        j['persistent_check'] = (n % 3 == 0)      # return_only_persistent=True on both sides for a third of them
     with mp.Pool(jobs_n, initializer=U.worker_init, maxtasksperchild=60) as pool:
         rres = pool.map(U.run_pair, run_jobs, chunksize=1)
+    late = [n for n, r in enumerate(rres) if r.get('timeout')]
+    if late:
+        with mp.Pool(min(jobs_n, len(late)), initializer=U.worker_init) as pool:
+            again = pool.map(U.run_pair, [dict(run_jobs[n], budget=run_jobs[n]['budget'] * 4) for n in late], chunksize=1)
+        for n, r in zip(late, again):
+            rres[n] = r
+    phases['run'] = round(time.time() - t0, 1)
     hist_run = collections.Counter()
     same_err = collections.Counter()
     if os.environ.get('C25_DEBUG'):
@@ -416,7 +441,7 @@ def main(ck):
             hist_run['%s/%s' % (org, 'equal' if both_ok else 'same-error')] += 1
             if not both_ok:
                 same_err['%s %s' % tuple((rr.get('err_text') or ['?', '?'])[:2])] += 1
-            if both_ok and (rr.get('persistent_names_text') != rr.get('persistent_names_scheme')):
+            if both_ok and 'persistent_names_text' in rr and rr['persistent_names_text'] != rr['persistent_names_scheme']:
                 V.violation('ast_to_sdmx:persistence flag changes which results run(return_only_persistent=True) returns', rp,
                             '%r vs %r' % (rr.get('persistent_names_text'), rr.get('persistent_names_scheme')))
             continue
@@ -461,7 +486,8 @@ def main(ck):
     ck.assumptions.append('Statement bodies are opaque strings in the Lean model: that ASTString text re-parses to the same AST and that run(scheme)=run(script) is tie-only (K), established on the sampled scripts, not proved.')
     ck.assumptions.append('The topological order create_ast gives the assignments is C12\'s subject; C25 takes ast.children as given and checks only its block order (Hoisted).')
     ck.assumptions.append('A script without any assignment cannot be run as a scheme (pysdmx model validation requires one Transformation); such scripts are excluded from run equivalence.')
-    ck.note('wall_phases_s', {'total': round(time.time() - t0, 1)})
+    phases['total'] = round(time.time() - t0, 1)
+    ck.note('wall_phases_cumulative_s', phases)
 
 
 vlib.run_check('C25', main)
